@@ -18,6 +18,9 @@ pub enum Op {
     Columns(usize),
     ColumnsAlt(usize),
     Values(usize),
+    /// the row handed over as a lazy iterator whose size hint is not exact: 0 = a `filter` (upper bound one too high),
+    /// 1 = `from_fn` (no upper bound)
+    ValuesLazy(usize, u8),
     ValuesPanic(usize),
     ValuesFromPanic(usize, usize),
     SelectFrom(usize),
@@ -126,6 +129,10 @@ impl Model for InsertModel {
         for m in 0..=3 {
             v.push(Op::ValuesPanic(m));
         }
+        for m in 1..=3 {
+            v.push(Op::ValuesLazy(m, 0));
+            v.push(Op::ValuesLazy(m, 1));
+        }
         for (a, b) in [(1, 1), (2, 2), (1, 2), (2, 1), (0, 1), (3, 3)] {
             v.push(Op::ValuesFromPanic(a, b));
         }
@@ -148,9 +155,21 @@ impl Model for InsertModel {
                 s.columns(names.iter().map(|n| Alias::new(n.as_str())));
                 r.cols = names;
             }
-            Op::Values(m) => {
+            Op::Values(m) | Op::ValuesLazy(m, _) => {
                 let tags = r.row_tags(*m, 0);
-                let got = s.values(row_exprs(&tags)).map(|_| ());
+                let got = match op {
+                    Op::ValuesLazy(_, 0) => {
+                        let mut cells = row_exprs(&tags);
+                        cells.push(Expr::val(-1).into());
+                        let m = *m;
+                        s.values(cells.into_iter().enumerate().filter(move |(i, _)| *i != m).map(|(_, e)| e)).map(|_| ())
+                    }
+                    Op::ValuesLazy(_, _) => {
+                        let mut cells = row_exprs(&tags).into_iter();
+                        s.values(std::iter::from_fn(move || cells.next())).map(|_| ())
+                    }
+                    _ => s.values(row_exprs(&tags)).map(|_| ()),
+                };
                 match (expect_row(r, *m), got) {
                     (Ok(()), Ok(())) => accept_row(r, tags),
                     (Err((c, v)), Err(Error::ColValNumMismatch { col_len, val_len })) => {
@@ -236,7 +255,7 @@ impl Model for InsertModel {
     fn op_class(&self, op: &Op) -> String {
         match op {
             Op::Columns(_) | Op::ColumnsAlt(_) => "columns",
-            Op::Values(_) | Op::ValuesPanic(_) | Op::ValuesFromPanic(..) => "row",
+            Op::Values(_) | Op::ValuesLazy(..) | Op::ValuesPanic(_) | Op::ValuesFromPanic(..) => "row",
             Op::SelectFrom(_) => "select",
             Op::SelectFromStar(_) => "select",
             Op::OrDefaultValues | Op::OrDefaultValuesMany(_) => "default",
